@@ -6,7 +6,7 @@ with and without the change, then the quick checks of the given properties again
 import json, os, shutil, subprocess, sys, tempfile, time
 
 wt, n, sid, *props = sys.argv[1:]
-ROOT = "/verif"
+ROOT = os.environ.get("VERIF_ROOT", "/verif")
 STORED = wt == "stored"  # re-run a seed already kept under /verif/seeded/<sid>/  (usage: seedtest.py stored - <sid> props...)
 if STORED:
     patch_file, demo_file, notes_file = (f"{ROOT}/seeded/{sid}/{f}" for f in ("patch.diff", "demo.py", "notes.md"))
